@@ -236,6 +236,9 @@ def one(R, kind, wsgi, server, rec, what, expect, status, repro, rng, tokens=(),
     if method == 'boom' and not what.startswith('dedicated'):
         # the same failure raised from a generator function (through the transport only: that is where its body runs)
         one(R, kind, wsgi, None, rec, what + '@generator', expect, status, dict(repro, generator=True), rng, tokens, method='gboom')
+        if kind != 'httprpc':       # (HttpRpc as output protocol only serialises primitives)
+            one(R, kind, wsgi, None, rec, what + '@generator_late', expect, status, dict(repro, generator='late'), rng, tokens,
+                method='gboom_late')
     req = M.encode_request(kind, method, [('token', 'T')])
     for driver in ('wsgi', 'server'):
         if driver == 'server' and server is None:
